@@ -6,19 +6,26 @@ Model of poly/transform (ComplementBase, Complement, Reverse, ReverseComplement)
 poly/checks.IsPalindromic and poly/transform/variants.AllVariantsIUPAC.
 
 The two lookup tables are NOT written here: they are `Gen.complementRows` and
-`Gen.iupacRows`, re-extracted on every run from the compiled Go code over the
-complete rune domain.  Strings are `List Char`; the Go functions are modelled on
+`Gen.iupacRows` (what the compiled Go code answers for the 15 IUPAC codes in both cases — the
+letters C11 quantifies over; the `decide`d table lemmas of Props/C11 mention only these) and
+`Gen.complementOther…` / `Gen.iupacOtherRows` (what it answers for every OTHER rune, recorded as
+data), all re-extracted on every run from the compiled Go code over the complete rune domain.  Strings are `List Char`; the Go functions are modelled on
 ASCII input (one byte = one rune), which is the domain the properties name.
 -/
 namespace PolyVerif.Transform
 
 open PolyVerif
 
-/-- `transform.ComplementBase`: map lookup, zero rune when absent. -/
+/-- `transform.ComplementBase` as observed: the row of the letter if it is one of the 30 code
+letters; for any other rune the recorded behaviour (an explicit row, else the recorded default:
+`0` = the zero rune — the map lookup of the present code — or `1` = the rune itself). -/
 def complementBase (c : Char) : Char :=
   match Gen.complementRows.lookup c.toNat with
   | some n => Char.ofNat n
-  | none => Char.ofNat 0
+  | none =>
+    match Gen.complementOtherRows.lookup c.toNat with
+    | some n => Char.ofNat n
+    | none => if Gen.complementOtherDefault = 0 then Char.ofNat 0 else c
 
 /-- `transform.Complement` = `strings.Map(ComplementBase, s)` (no rune is dropped: the
 mapping never returns a negative value). -/
@@ -40,6 +47,14 @@ def upper (s : Str) : Str := s.map Char.toUpper
 as observed on every one-rune string). -/
 def iupacLookup (c : Char) : Option (List Char) :=
   (Gen.iupacRows.lookup c.toNat).map (·.map Char.ofNat)
+
+/-- the same for ANY rune, including those outside the 30 code letters that the code accepts
+(recorded in `Gen.iupacOtherRows`; a variant may then be empty or several runes).  Used only to
+predict the code on out-of-domain inputs (correspondence drift), never by a theorem. -/
+def iupacLookupAny (c : Char) : Option (List Str) :=
+  match iupacLookup c with
+  | some l => some (l.map fun x => [x])
+  | none => (Gen.iupacOtherRows.lookup c.toNat).map (·.map (·.map Char.ofNat))
 
 /-- `cartRune`: all choices, last position varying fastest (the odometer loop). -/
 def cart : List (List Char) → List (List Char)
@@ -69,5 +84,16 @@ def allVariants (s : Str) : Option (List Str) :=
   match variantLists s with
   | none => none
   | some ls => if countGuard ls 1 then some (cart ls) else none
+
+/-- prediction of AllVariantsIUPAC on an input with letters outside the 30 codes, from the recorded
+one-rune behaviour (letter by letter; no guard, no claim: out-of-domain correspondence only) -/
+def allVariantsAny (s : Str) : Option (List Str) :=
+  let rec go : Str → Option (List Str)
+    | [] => some [[]]
+    | c :: cs =>
+      match iupacLookupAny c, go cs with
+      | some l, some rest => some (l.flatMap fun x => rest.map (x ++ ·))
+      | _, _ => none
+  go s
 
 end PolyVerif.Transform
